@@ -63,6 +63,22 @@ def runShow (c : VCfg) : VState → List VOp → List String
     let q := vstep c s op
     (showOut q.2 ++ " # " ++ showState q.1) :: runShow c q.1 ops
 
+def dop? (s : String) : Option (Nat × VOp) :=
+  match words s with
+  | d :: rest =>
+    if firstChar d == '@' then
+      match (dropFirst d).toNat?, op? (" ".intercalate rest) with
+      | some d, some op => some (d, op)
+      | _, _ => none
+    else none
+  | _ => none
+
+def runShowD (c : VCfg) : DState → List (Nat × VOp) → List String
+  | _, [] => []
+  | S, (d, op) :: ops =>
+    let q := dstep c S d op
+    (showOut q.2 ++ " # " ++ showState (q.1 0) ++ " ## " ++ showState (q.1 1)) :: runShowD c q.1 ops
+
 def handle (line : String) : String :=
   match (line.splitOn "|").map (fun s => s.trimAscii.toString) with
   | [hd, ops] =>
@@ -73,6 +89,14 @@ def handle (line : String) : String :=
       match n.toNat?, dfl, ops with
       | some n, some dfl, some ops =>
         " ; ".intercalate (runShow ⟨n, dfl, u == "1"⟩ vinit ops)
+      | _, _, _ => "bad-case"
+    | ["W", n, dfl, u] =>
+      -- two databases; ops `@<db> <op>`; answer per op `<out> # <db 0> ## <db 1>`
+      let dfl := if dfl == "-" then some [] else allSome ((dfl.splitOn ",").map val?)
+      let ops := if ops.isEmpty then some [] else allSome ((ops.splitOn ";").map fun s => dop? s.trimAscii.toString)
+      match n.toNat?, dfl, ops with
+      | some n, some dfl, some ops =>
+        " ; ".intercalate (runShowD ⟨n, dfl, u == "1"⟩ dinit ops)
       | _, _, _ => "bad-case"
     | _ => "bad-case"
   | _ => "bad-case"
